@@ -26,7 +26,7 @@ C14_keyword_table C14_operator_table C14_single_table C14_op_classes C14_escape_
 C14_decode_is_lossy C14_decode_no_panic C14_decode_scalar C14_lossy_encode
 C14_lex_tiles C14_lex_filter C14_lex_error_located C14_fuel_sufficient C14_lex_no_panic C14_lex_total
 C14_operator_maximal_munch C14_munch_example
-C14_verbatim_string_value C14_quoted_string_value C14_surrogate_pairs C14_surrogate_pairs_onto C14_quoted_spec_example
+C14_verbatim_string_value C14_quoted_string_value C14_number_value_partial C14_surrogate_pairs C14_surrogate_pairs_onto C14_quoted_spec_example
 C14_nonvacuous
 '''.split()
 THEOREMS = THEOREM_LIST
@@ -459,12 +459,25 @@ def gen_clusters(rng, tier):
             out.append(Case(bytes(t), 'cluster', munch=True))
     all4 = [bytes(t) for t in itertools.product(SYMS, repeat=4)]
     if tier == 'quick':
-        all4 = rng.sample(all4, 2500)
+        all4 = rng.sample(all4, 2000)
     out += [Case(b, 'cluster', munch=True) for b in all4]
     # clusters followed by an identifier / preceded by one, and longer random ones
     for _ in range(400 if tier == 'quick' else 4000):
         b = bytes(rng.choice(SYMS) for _ in range(rng.choice([2, 3, 5, 6, 8])))
         out.append(Case(b + rng.choice([b'x', b' 1', b'', b'\n']), 'cluster', munch=True))
+    return out
+
+
+def gen_numberlike(rng, tier):
+    """number-shaped strings, mostly malformed: every string over 0 1 _ . e + - up to a length, and longer samples"""
+    alph = b'01_.e+-'
+    out = []
+    for ln in range(1, 5 if tier == 'quick' else 6):
+        for t in itertools.product(alph, repeat=ln):
+            out.append(Case(bytes(t), 'numberlike'))
+    for _ in range(1500 if tier == 'quick' else 20000):
+        b = bytes([rng.choice(b'0123456789')]) + bytes(rng.choice(b'0019__..eE+-') for _ in range(rng.choice([4, 5, 6, 8])))
+        out.append(Case(b + rng.choice([b'', b' ', b'x']), 'numberlike'))
     return out
 
 
@@ -651,7 +664,7 @@ def check(run):
     rng = vlib.rng_for(run.seed, ID)
     run.rule = ('inputs: corpus; random bytes (lexer-relevant alphabet and uniform); mutated ui-tests programs; grammar-generated token '
                 'sequences (every literal form with generator-known values); all strings over the 15 symbol characters of length <= 3 '
-                'and a sample (quick) / all (thorough) of length 4; every lead byte x continuation-class representatives inside quoted, '
+                'and a sample (quick) / all (thorough) of length 4; all number-shaped strings over 0 1 _ . e + - up to length 4 (thorough 5) plus longer samples; every lead byte x continuation-class representatives inside quoted, '
                 'verbatim, text-block bodies and comments; blocks of consecutive scalar values (thorough: all scalars). Each input is '
                 'lexed with and without whitespace tokens on both sides. non-trivial = distinct token-kind sequence (first 24 kinds, '
                 'simple tokens by name) or error variant, among cases where implementation and model agree.')
@@ -671,9 +684,10 @@ def check(run):
     cases = read_corpus()
     cases += gen_clusters(rng, run.tier)
     cases += gen_utf8(rng, run.tier)
-    cases += gen_grammar(rng, 2500 if quick else 30000)
-    cases += gen_random(rng, 3000 if quick else 40000)
-    cases += gen_mutated(rng, ui_corpus(), 1200 if quick else 8000)
+    cases += gen_numberlike(rng, run.tier)
+    cases += gen_grammar(rng, 2000 if quick else 30000)
+    cases += gen_random(rng, 2000 if quick else 40000)
+    cases += gen_mutated(rng, ui_corpus(), 900 if quick else 8000)
     chunk = 20000
     for a in range(0, len(cases), chunk):
         run_cases(run, cases[a:a + chunk], impl_exe, model_exe, first_id=a)
